@@ -658,7 +658,8 @@ func (c *Conn) heartBeat(ctx context.Context) {
 		case error:
 			// TODO: should we do something here?
 		default:
-			panic(fmt.Sprintf("gocql: unknown frame in response to options: %T", resp))
+			// not a response to OPTIONS, the peer is misbehaving
+			failures++
 		}
 	}
 }
